@@ -169,13 +169,18 @@ def perFieldOverhead : Nat := 32
 def typicalHeaders : Nat := 10
 def defaultMaxHeaderBytes : Nat := 1048576
 
-/-- `serverConn.maxHeaderListSize()`: what the server advertises and enforces. -/
+/-- `serverConn.maxHeaderListSize()`: what the server advertises and enforces,
+`uint32(adjustHTTP1MaxHeaderSize(MaxHeaderBytes))` — the conversion truncates (as the code is). -/
 def serverHeaderListLimit (maxHeaderBytes : Nat) : Nat :=
-  (if maxHeaderBytes = 0 then defaultMaxHeaderBytes else maxHeaderBytes) + typicalHeaders * perFieldOverhead
+  ((if maxHeaderBytes = 0 then defaultMaxHeaderBytes else maxHeaderBytes) + typicalHeaders * perFieldOverhead)
+    % 4294967296
 
-/-- `Transport.maxHeaderListSize()` (no `MaxResponseHeaderBytes`; values below 2^32-1). -/
+/-- `Transport.maxHeaderListSize()` (no `MaxResponseHeaderBytes`): 0 means 10 MiB; 2^32-1 means
+"no limit": nothing is advertised and the Framer's own default (16 MiB) applies. -/
 def clientHeaderListLimit (maxHeaderListSize : Nat) : Nat :=
-  if maxHeaderListSize = 0 then 10485760 else maxHeaderListSize
+  if maxHeaderListSize = 0 then 10485760
+  else if maxHeaderListSize ≥ 4294967295 then 16777216
+  else maxHeaderListSize
 
 /-! ## Request: client side -/
 
